@@ -838,6 +838,30 @@ def wl_structure(run, rng, idx):
             if not (same("stack-composites", piece(S2, (0,) + i), u, i) and
                     same("stack-composites", piece(S2, (1,) + i), u, i)):
                 break
+    # combining: Class.combine([X, first half of X's units]) = the flattened units
+    # of both, in order, with their derived data (seeded change C04-r2-3: the
+    # auxiliary data of rank-3 classes joined along the wrong axis)
+    flat_units = [u for _, u in units]
+    half = flat_units[:max(1, len(flat_units) // 2)]
+    try:
+        K = cls.combine([X, cls(half) if len(half) > 1 else half[0]])
+    except Exception as e:
+        import traceback
+        from .. import core
+        if core.raised_in_harness(e.__traceback__):
+            raise
+        K = None
+        mon.fail("structure/combine/exception:%s/%s" % (type(e).__name__, kind),
+                 "%s.combine([X, Y]) raised %s: %s" % (cls.__name__, type(e).__name__, str(e)[:120]),
+                 case, tb=traceback.format_exc())
+    if K is not None:
+        want = flat_units + half
+        if mon.require(K.shape == (len(want),), "structure/combine/shape",
+                       "%s.combine of %d and %d units has shape %r"
+                       % (cls.__name__, len(flat_units), len(half), K.shape), case):
+            for k, u in enumerate(want):
+                if not same("combine", piece(K, (k,)), u, (k,)):
+                    break
     # class copy keeps everything
     C = cls(X)
     if mon.require(C.shape == shape, "structure/class-copy/shape",
